@@ -288,6 +288,10 @@ class C18(System):
                 for i in range(n):
                     for si in free: acts.append(('set', ui, side, i, si))
                     acts.append(('set', ui, side, i, None))
+                    # the same port addressed from the end (wave 7: a negative index resolved against the nominal port
+                    # count instead of the current length went unnoticed — only non-negative indices were offered)
+                    for si in free: acts.append(('set', ui, side, i - n, si))
+                    acts.append(('set', ui, side, i - n, None))
                 if not fixed and n < st.cap:
                     for si in free: acts.append(('set', ui, side, n, si))   # documented append-by-index path
                 # append / insert: stream not docked on that side of any unit
@@ -299,6 +303,7 @@ class C18(System):
                 # pop / remove / replace
                 for i in range(n):
                     if fixed or n > 0: acts.append(('pop', ui, side, i))
+                if n > 0: acts.append(('pop', ui, side, -1))
                 for si in members:
                     acts.append(('remove', ui, side, si))
                     for sj in free: acts.append(('replace', ui, side, si, sj))
